@@ -70,6 +70,10 @@ def check_c03(rec, nodes, spec, wall: bool = False, strict_buffer_skip: bool = T
 
     V = Verdict()
     B, E, D, SEQ, cons = record_arrays(rec, nodes)
+    try:
+        mph = model_phases(spec, nodes) if spec is not None else {}
+    except RecursionError:
+        mph = {}
     for n in B:
         K_ = len(SEQ[n])
         V.judged += K_
@@ -116,8 +120,8 @@ def check_c03(rec, nodes, spec, wall: bool = False, strict_buffer_skip: bool = T
             if c.blocking:
                 if wall:
                     continue
-                ti = round(i / rate_u + round(nodes[u].phase, 6), 6)
-                ph_v = round(nodes[v].phase, 6)
+                ti = round(i / rate_u + round(float(mph.get(u, nodes[u].phase)), 6), 6)
+                ph_v = round(float(mph.get(v, nodes[v].phase)), 6)
 
                 def thigh(N):
                     return round(N / rate_v + ph_v, 6)
@@ -147,7 +151,7 @@ def check_c03(rec, nodes, spec, wall: bool = False, strict_buffer_skip: bool = T
                     if c.skip:
                         V.p("skip_tie")
             else:  # BUFFER
-                texp = i / rate_u + float(c.phase)
+                texp = i / rate_u + float(mph.get((u, v), c.phase))  # expected arrival from the configuration, not from rex's own phase
 
                 def elig(kk):
                     arr = (bv[kk] > recv[i]) if (c.skip and strict_buffer_skip) else (bv[kk] >= recv[i])
@@ -250,7 +254,10 @@ def model_phases(spec, nodes) -> dict:
         memo[i] = best
         return best
 
-    return {names[i]: ph(i) for i in range(len(names))}
+    out = {names[i]: ph(i) for i in range(len(names))}
+    for c in spec["conns"]:
+        out[(names[c["src"]], names[c["dst"]])] = (ph(c["src"]) + ndelay(c["src"])) + cdelay(c)  # expected arrival phase of the connection
+    return out
 
 
 def check_c04(rec, nodes, spec) -> Verdict:
@@ -265,6 +272,8 @@ def check_c04(rec, nodes, spec) -> Verdict:
     except RecursionError:
         mph = {}
     for v, p in mph.items():
+        if isinstance(v, tuple):
+            continue
         if abs(float(nodes[v].phase) - p) > 1e-9:
             V.v("4.5-phase-differs-from-configured-longest-delay-path", node=v, phase=float(nodes[v].phase), expected=p)
     for v in B:
